@@ -114,7 +114,7 @@ def _defs():
 
 
 # ====================================================================== structural generator
-GENERIC = [("test.pureop", 30), ("test.op_with_memread", 8), ("test.op_with_memwrite", 10), ("test.op", 8),
+GENERIC = [("test.pureop", 24), ("test.op_with_memread", 8), ("test.op_with_memwrite", 14), ("test.op", 12),
            ("test.op_with_symbol", 2), ("c13.sym_pure", 3), ("c13.rec", 7), ("c13.rec_read", 2), ("c13.rec_write", 1),
            ("c13.alloc_own", 4), ("c13.alloc_other", 2), ("c13.free", 2), ("c13.read_write", 2), ("c13.read_alloc", 2),
            ("scf.if", 5), ("scf.for", 3), ("scf.while", 2)]
@@ -157,7 +157,7 @@ class SGen:
         m = self.b.ModuleOp([])
         blk = m.body.block
         self.top_vals = pool = []
-        self.fill(blk, pool, 0, self.rng.choice([2, 4, 6, 9, 12]))
+        self.fill(blk, pool, 0, self.rng.choice([2, 3, 5, 7, 9]))
         return m
 
     def fill(self, block, pool, depth, nops):
@@ -167,7 +167,7 @@ class SGen:
     def one(self, block, pool, depth):
         rng = self.rng
         name = rng.choices(self.names, self.weights)[0]
-        if name.startswith("scf.") and depth >= 3:
+        if name.startswith("scf.") and depth >= 2:
             name = "test.pureop"
         if name == "scf.if":
             return self.mk_if(block, pool, depth)
@@ -184,9 +184,9 @@ class SGen:
         if name in ("c13.alloc_own", "c13.read_alloc"):
             nres = max(nres, 1)
         regions = []
-        p_reg = (0.45, 0.22, 0.10, 0.0)[min(depth, 3)]
+        p_reg = (0.40, 0.12, 0.04, 0.0)[min(depth, 3)]
         if name.startswith("c13.rec"):
-            p_reg = 0.9 if depth < 3 else 0.0
+            p_reg = (0.9, 0.7, 0.3, 0.0)[min(depth, 3)]
         if name not in ("c13.alloc_other",) and rng.random() < p_reg:
             for _ in range(rng.choice([1, 1, 1, 2])):
                 regions.append(self.region(depth + 1, list(pool)))
@@ -198,7 +198,7 @@ class SGen:
     def region(self, depth, outer):
         from xdsl.ir import Block, Region
         rng = self.rng
-        nb = rng.choice([1, 1, 2, 3, 4, 5])
+        nb = rng.choice([1, 1, 2, 3, 4])
         blocks = [Block(arg_types=[self.rtype() for _ in range(rng.choice([0, 0, 1, 2]))]) for _ in range(nb)]
         if nb == 1:
             term = [rng.random() < 0.7]
@@ -222,15 +222,13 @@ class SGen:
                 if (reach[j] or not reach[i]) and rng.random() < 0.5:
                     pool.extend(vals_of[j])
             before = len(pool)
-            first_new = b.last_op
-            self.fill(b, pool, depth, rng.choice([0, 1, 2, 3, 5, 7]))
+            self.fill(b, pool, depth, rng.choice([0, 1, 2, 3, 4]))
             vals_of[i] = pool[before:]
             if term[i]:
                 tname = rng.choice(["test.termop", "test.termop", "c13.term_pure"])
-                operands = [rng.choice(pool) for _ in range(rng.choice([0, 0, 1, 2]))] if pool else []
+                operands = [rng.choice(pool) for _ in range(rng.choice([0, 1, 1, 2]))] if pool else []
                 t = self.tag(self.D[tname].create(operands=operands, successors=[blocks[k] for k in succ[i]]))
                 b.add_op(t)
-            del first_new
             for o in b.ops:
                 direct.append((o, i))
         # dead (or live) use-def cycles across blocks: mutually-using ops, 2- and 3-cycles, plus forward references
@@ -720,8 +718,8 @@ def compare_sets(pname, snap, got, blocks_after, problems, exact):
         removed_live = want - got
         kept_dead = got - want
         if removed_live:
-            roots = [i for i in removed_live if R.why_not(snap.by_id[i]) is not None]
-            why = sorted({R.why_not(snap.by_id[i]) for i in roots})[:3] or ["used-by-live-op"]
+            roots = [i for i in removed_live if R.why_not(snap.by_id[i], allblocks=False) is not None]
+            why = sorted({R.why_not(snap.by_id[i], allblocks=False) for i in roots})[:3] or ["used-by-live-op"]
             out.append((f"{pname}:removed-live:{'|'.join(why)}",
                         f"{pname} removed ops the reference keeps: {_names(snap, removed_live)}",
                         {"removed_live": sorted(removed_live)[:8], "kept_removable": sorted(kept_dead)[:8]}))
@@ -801,7 +799,7 @@ def work(job):
             snap = R.snapshot(m)
             canon = shash(R.canon(snap))
             want = R.survivors(snap)
-            ncand_kept = sum(1 for i in want if R.candidate(snap.by_id[i]))
+            ncand_kept = sum(1 for i in want if R.candidate(snap.by_id[i], allblocks=False))
             nontriv = len(want) < len(snap.nodes) and ncand_kept >= 1
             if nontriv:
                 nt.add(canon)
@@ -855,7 +853,7 @@ def work(job):
             snap = R.snapshot(m0)
             canon = shash(R.canon(snap))
             want = R.survivors(snap)
-            ncand_kept = sum(1 for i in want if R.candidate(snap.by_id[i]))
+            ncand_kept = sum(1 for i in want if R.candidate(snap.by_id[i], allblocks=False))
             nontriv = len(want) < len(snap.nodes) and ncand_kept >= 1
             if nontriv:
                 nt.add(canon)
